@@ -32,6 +32,10 @@ def run(chk):
         r04_mol(chk, cr)
     if chk.want("R04.5"):
         r04_5(chk, repo, cr)
+    chk.rule("R04.8", "memo discipline of class Crystal (= C14 R14.2): every state-changing method drops every memoised quantity, including any newly introduced cache", 2)
+    if chk.want("R04.8"):
+        from .c14 import crystal_memo_rule
+        crystal_memo_rule(chk, "R04.8")
     chk.assume("the greedy choice of symmetry-unique molecules, Z' * |G| and all geometry (bonding distances) are not decided")
     chk.assume("scipy connected_components labels partition the nodes; breadth_first_order returns each node's predecessor")
 
@@ -185,7 +189,7 @@ def r04_mol(chk, cr):
                 w = wrap_of(P.atom(t))
                 if w is not None:
                     fc = w[0]
-                    ok = diff == P.atom(t) - fc
+                    ok = diff == P.atom(t) - fc and w[1] >= 1
         chk.ob("R04.3", CR, q, "the translation is to_cartesian(wrapped - original) of the fractional centre", ok, found=str(v))
         chk.ob("R04.3", CR, q, "the centre is the molecule's centre of mass converted to fractional coordinates",
                fc is not None and fc.key() == "self.to_fractional($mol.center_of_mass)", found=str(fc))
